@@ -21,6 +21,18 @@ def evId : Ev → Option Nat
   | .ns id _ _ _ | .mail id _ _ _ | .rcpt id _ _ _ | .reset id | .logout id | .authMech id _ _ | .dataBegin id _ => some id
   | _ => none
 
+def containsSub (s sub : Bytes) : Bool :=
+  let rec go : Bytes → Nat → Bool
+    | _, 0 => false
+    | t, fuel + 1 => sub.isPrefixOf t || (match t with | [] => false | _ :: r => go r fuel)
+  go s (s.length + 1)
+
+def mentions (e : Ev) (sub : Bytes) : Bool :=
+  match e with
+  | .ns _ h _ _ => containsSub h sub
+  | .mail _ a _ _ | .rcpt _ a _ _ => containsSub a sub
+  | _ => false
+
 /-! ### C08 — each session logged out exactly once; nothing runs after the connection ends -/
 
 structure M8 where
@@ -171,13 +183,27 @@ def step12 (cfg : Cfg) (m : M12) (e : Ev) : Except String M12 :=
 
 def check12 (cfg : Cfg) (evs : List Ev) : List String := runMon (step12 cfg) (fun _ => []) {} evs
 
-/-! ### C10 — STARTTLS discards plaintext state; offered only when available and not active -/
+/-- C12, second half: in a lock-step probe conversation (one command per line, no message data) every
+    parameter of a disabled extension is refused with 504 and every parameter/command of an enabled
+    one is not refused as unsupported. `cmds` are the input lines, `replies` the replies after the greeting. -/
+def probeExpect (cfg : Cfg) (tls : Bool) (line : Bytes) (r : Reply) : List String :=
+  let has (k : String) := containsSub line k.b
+  let off (b : Bool) (what : String) : List String :=
+    if !b && r.code != 504 then ["C12 parameter of the disabled extension " ++ what ++ " not refused with 504"]
+    else if b && (r.code == 504 || r.code == 502 || r.code == 500) then ["C12 " ++ what ++ " is advertised but refused as unsupported"]
+    else []
+  if has "SMTPUTF8" then off cfg.utf8 "SMTPUTF8"
+  else if has "REQUIRETLS" then off cfg.reqtls "REQUIRETLS"
+  else if has "BINARYMIME" then off cfg.binmime "BINARYMIME"
+  else if has "RET=" || has "ENVID=" || has "NOTIFY=" || has "ORCPT=" then off cfg.dsn "DSN"
+  else if has "RRVS=" then off cfg.rrvs "RRVS"
+  else if has "STARTTLS" then
+    (if (r.code == 220) != (cfg.tlsAvail && !tls) then ["C12 STARTTLS accepted/refused inconsistently with the configuration"] else [])
+  else if has "AUTH PLAIN" then
+    (if (r.code == 235) != ((tls || cfg.insecureAuth) && cfg.authSess) then ["C12 AUTH accepted/refused inconsistently with the configuration"] else [])
+  else []
 
-def containsSub (s sub : Bytes) : Bool :=
-  let rec go : Bytes → Nat → Bool
-    | _, 0 => false
-    | t, fuel + 1 => sub.isPrefixOf t || (match t with | [] => false | _ :: r => go r fuel)
-  go s (s.length + 1)
+/-! ### C10 — STARTTLS discards plaintext state; offered only when available and not active -/
 
 structure M10 where
   tls : Bool := false           -- TLS state of the most recent session
@@ -259,10 +285,138 @@ def step4 (lmtp : Bool) (drecs : List DRec) (m : M4) (e : Ev) : Except String M4
 def check4 (lmtp : Bool) (drecs : List DRec) (evs : List Ev) : List String :=
   runMon (step4 lmtp drecs) (fun _ => []) {} evs
 
-/-! ### C19 — hostile input: no panic, bounded errors -/
+/-! ### C19 — hostile input: no panic, long lines refused, short lines never refused for their length -/
 
-def check19 (evs : List Ev) : List String :=
-  if evs.any (fun e => match e with | .panicLog => true | _ => false) then ["C19 a panic was recovered while serving"]
-  else []
+/-- the lines of a command-only conversation, each with its terminating LF -/
+def linesLF : Bytes → Bytes → List Bytes → List Bytes
+  | [], cur, acc => (if cur.isEmpty then acc else cur.reverse :: acc).reverse
+  | c :: t, cur, acc => if c == 10 then linesLF t [] ((c :: cur).reverse :: acc) else linesLF t (c :: cur) acc
+
+def hasReply (evs : List Ev) (p : Reply → Bool) : Bool :=
+  evs.any fun e => match e with
+    | .w bs => (match parse bs with | some rs => rs.any p | none => false)
+    | _ => false
+
+def isTooLong (r : Reply) : Bool :=
+  r.code == 500 && (match r.lines.head? with | some l => enhOf l == some (5, 4, 0) | none => false)
+
+/-- `cmdOnly`: the generator vouches that the input consists of command lines only (no message data) -/
+def check19 (maxLine : Nat) (cmdOnly : Bool) (input : Bytes) (evs : List Ev) : List String :=
+  (if evs.any (fun e => match e with | .panicLog => true | _ => false) then ["C19 a panic was recovered while serving"] else []) ++
+  (if evs.any (fun e => mentions e "long".b) then ["C19 an over-long line (or a prefix of it) reached the backend"] else []) ++
+  (if cmdOnly && maxLine > 0 && (linesLF input [] []).all (fun l => l.length ≤ maxLine) && hasReply evs isTooLong
+   then ["C19 a line within the maximum was refused for its length"] else []) ++
+  (if cmdOnly && maxLine > 0 && (linesLF input [] []).any (fun l => l.length ≥ maxLine + 2) &&
+      !hasReply evs isTooLong && !hasReply evs (fun r => r.code == 221 || r.code == 421) &&
+      !hasReply evs (fun r => r.code == 500 && (match r.lines.head? with | some l => enhOf l == some (5, 5, 1) | none => false))
+   then ["C19 an over-long line was not answered 500 and the connection not closed"] else [])
+
+/-! ### C13 — LMTP: one status per accepted recipient, in order, correctly attributed -/
+
+def countOf (a : Bytes) (l : List Bytes) : Nat := (l.filter (· == a)).length
+
+/-- The specification of attribution: the i-th recipient, being the j-th occurrence of its address,
+    gets the j-th status the backend set for that address; where it set none, the backend's return
+    value.  A call for an unknown address or one call too many is outside the backend's contract
+    (the server treats it as a backend panic: everybody without a status gets 421). -/
+def inContract (rcpts : List Bytes) (calls : List (Bytes × BRes)) : Bool :=
+  calls.all (fun c => rcpts.contains c.1) &&
+  (calls.map (·.1)).eraseDups.all (fun a => countOf a (calls.map (·.1)) ≤ countOf a rcpts)
+
+def expectedStatuses (rcpts : List Bytes) (calls : List (Bytes × BRes)) (ret : BRes) : List (Bytes × BRes) :=
+  let rec go : List Bytes → List Bytes → List (Bytes × BRes)
+    | [], _ => []
+    | a :: rest, seen =>
+      let j := countOf a seen
+      let mine := (calls.filter (·.1 == a)).map (·.2)
+      (a, (mine[j]?).getD ret) :: go rest (seen ++ [a])
+  go rcpts []
+
+structure M13 where
+  rcpts : List Bytes := []            -- recipients accepted in the current transaction
+  lastCode : Nat := 0
+  pending : Option (Nat × Bool) := none     -- delivery k has begun; synchronous?
+  replies : List Reply := []          -- replies seen since it began
+deriving Repr, Inhabited
+
+def statusReplyOk (exp : Bytes × BRes) (r : Reply) : Bool :=
+  verdictOk exp.2 r.code &&
+  (match r.lines.head? with
+   | some l =>
+     let t := match enhOf l with
+       | some _ => (l.dropWhile (· != 32)).drop 1
+       | none => l
+     ("<".b ++ exp.1 ++ "> ".b).isPrefixOf t
+   | none => false)
+
+def finish13 (lmtpSess : Bool) (decs : List DataDec) (drecs : List DRec) (m : M13) : Except String M13 :=
+  match m.pending with
+  | none => .ok m
+  | some (k, sync) =>
+    match drecs[k]?, decs[k]? with
+    | some d, some dec =>
+      let reached := sync || d.rdEnd == .eof
+      let calls := if lmtpSess then dec.statuses else []
+      -- a plain backend that panics never gets as far as per-recipient replies: the connection is given up (421)
+      if !reached || m.rcpts.isEmpty || (!lmtpSess && d.ret == .panic) then .ok { m with pending := none, replies := [] }
+      else if !inContract m.rcpts calls then .ok { m with pending := none, replies := [] }
+      else
+        let exp := expectedStatuses m.rcpts calls d.ret
+        let n := m.rcpts.length
+        let got := m.replies.drop (m.replies.length - n)
+        if m.replies.length < n then .error "C13 fewer final replies than accepted recipients"
+        else if (exp.zip got).all (fun p => statusReplyOk p.1 p.2) then .ok { m with pending := none, replies := [] }
+        else .error "C13 a recipient's reply does not carry that recipient's own status, in RCPT order"
+    | _, _ => .ok { m with pending := none, replies := [] }
+
+def step13 (lmtpSess : Bool) (decs : List DataDec) (drecs : List DRec) (m : M13) (e : Ev) : Except String M13 :=
+  match e with
+  | .rcpt _ a _ r => .ok (if r == .ok then { m with rcpts := m.rcpts ++ [a] } else m)
+  | .reset _ | .logout _ =>
+    match finish13 lmtpSess decs drecs m with
+    | .ok m' => .ok { m' with rcpts := [] }
+    | .error r => .error r
+  | .dataBegin _ k => .ok { m with pending := some (k, m.lastCode == 354), replies := [] }
+  | .w bs =>
+    match parse bs with
+    | none => .ok m
+    | some rs =>
+      let lc := match rs.getLast? with | some r => r.code | none => m.lastCode
+      .ok { m with lastCode := lc, replies := if m.pending.isSome then m.replies ++ rs else [] }
+  | _ => .ok m
+
+def check13 (lmtp lmtpSess : Bool) (decs : List DataDec) (drecs : List DRec) (evs : List Ev) : List String :=
+  if !lmtp then [] else runMon (step13 lmtpSess decs drecs) (fun _ => []) {} evs
+
+/-! ### bait and markers (C02, C05, C10): message octets are never executed; what follows a message is -/
+
+/-- markers `mk0@x`, `mk1@x`, … present in the client's octets -/
+def markerCount (input : Bytes) : Nat :=
+  let rec go : Nat → Nat → Nat
+    | 0, i => i
+    | fuel + 1, i => if containsSub input ("mk".b ++ natToDec i ++ "@x".b) then go fuel (i + 1) else i
+  go 16 0
+
+def checkBait (input : Bytes) (evs : List Ev) : List String :=
+  (if evs.any (fun e => mentions e "bait".b) then ["C02/C05 octets of a message were executed as a command"] else []) ++
+  (let n := markerCount input
+   let seen := evs.filterMap fun e => match e with
+     | .mail _ a _ _ => if "mk".b.isPrefixOf a then some a else none
+     | _ => none
+   let want := (List.range n).map fun i => "mk".b ++ natToDec i ++ "@x".b
+   if n > 0 && seen != want && !evs.any (fun e => match e with | .panicLog => true | _ => false)
+   then ["C02/C05 the commands that follow the message were not executed exactly once, in order"] else [])
+
+/-- expected octets of delivery records (`k`, octets) handed down by the case generator -/
+def checkExpect (exp : List (Nat × Bytes)) (drecs : List DRec) : List String :=
+  if exp.all (fun (k, o) => match drecs[k]? with | some d => d.octets == o | none => false) then []
+  else ["C05/C01 the backend did not read exactly the expected octets"]
+
+/-! ### C07 (conversation level): no positive final reply for a message whose reader did not reach EOF -/
+
+def check7 (lmtp : Bool) (drecs : List DRec) (evs : List Ev) : List String :=
+  -- the final reply for a message reports that message's own outcome (so a backend that propagates the
+  -- reader's failure — the documented contract — never sees its truncated message answered positively)
+  (check4 lmtp drecs evs).filter (fun r => "C04 the final".isPrefixOf r)
 
 end SmtpV.Spec.Mon
